@@ -3,6 +3,7 @@ package main
 // Calls: builtins, contracts, inlining, interface dispatch.
 
 import (
+	"go/ast"
 	"fmt"
 	"go/token"
 	"go/types"
@@ -481,6 +482,12 @@ func (x *Exec) applyContract(fr *Frame, st *State, ct *Contract, key string, sig
 	if !x.spawning {
 		// (the postconditions of a spawned goroutine hold when it ends, not at the spawn point)
 		for _, cl := range ct.Ensures {
+			if mentionsCallHistory(cl.Expr) {
+				// callres/ncalls speak about the calls the callee made; in the caller's state they would
+				// be evaluated over the caller's own call history: such clauses are proved for the callee
+				// and give the caller nothing
+				continue
+			}
 			st.assume(post.boolExpr(cl.Expr))
 		}
 	}
@@ -944,4 +951,18 @@ func topID(fr *Frame) int {
 		return fr.id
 	}
 	return -1
+}
+
+// mentionsCallHistory: the expression uses callres(...) or ncalls(...).
+func mentionsCallHistory(e ast.Expr) bool {
+	found := false
+	ast.Inspect(e, func(n ast.Node) bool {
+		if c, ok := n.(*ast.CallExpr); ok {
+			if id, ok := c.Fun.(*ast.Ident); ok && (id.Name == "callres" || id.Name == "ncalls") {
+				found = true
+			}
+		}
+		return !found
+	})
+	return found
 }
